@@ -234,4 +234,44 @@ theorem find?_first {l : List Entry} {p : Entry → Bool} {x : Entry} (hp : l.Pa
     · have := (List.pairwise_cons.mp hp2).1 y h2
       unfold before at hb this; omega
 
+/-! ### Extension mux: the raw `Host` is read only through its port-stripped form; `strings.Contains` -/
+
+/-- `q` with another raw `Host` (another port, or none) but the same host-without-port. -/
+def withHost (q : Req) (h : String) : Req := { q with host := h }
+
+theorem searchPaths_withHost (o : Oracle) (q : Req) (h : String) (ri : Nat) :
+    ∀ (es : List PathEntry) (pi : Nat) (hm mm : Bool),
+      searchPaths o (withHost q h) ri pi es hm mm = searchPaths o q ri pi es hm mm
+  | [], _, _, _ => rfl
+  | e :: es, pi, hm, mm => by
+    have ih := searchPaths_withHost o q h ri es (pi + 1)
+    have h1 : matchPath o e (withHost q h) = matchPath o e q := rfl
+    have h2 : matchMethod e (withHost q h) = matchMethod e q := rfl
+    have h3 : matchHeaders o e (withHost q h) = matchHeaders o e q := rfl
+    have h4 : (withHost q h).ip = q.ip := rfl
+    simp only [searchPaths, h1, h2, h3, h4, ih]
+
+theorem searchRules_withHost (o : Oracle) (q : Req) (h : String) :
+    ∀ (rs : List Rule) (ri : Nat) (hm mm : Bool),
+      searchRules o (withHost q h) ri rs hm mm = searchRules o q ri rs hm mm
+  | [], _, _, _ => rfl
+  | r :: rs, ri, hm, mm => by
+    have ih := searchRules_withHost o q h rs (ri + 1)
+    have h1 : ruleMatch o r (withHost q h) = ruleMatch o r q := rfl
+    have h4 : (withHost q h).ip = q.ip := rfl
+    simp only [searchRules, h1, h4, ih, searchPaths_withHost]
+
+theorem isPrefixOf_self (p : List Char) : p.isPrefixOf p = true := by
+  induction p with
+  | nil => rfl
+  | cons c t ih => simp [List.isPrefixOf, ih]
+
+theorem isInfix_append_left (p : List Char) : ∀ a : List Char, isInfix p (a ++ p) = true
+  | [] => by
+    cases p with
+    | nil => rfl
+    | cons c t => simp [isInfix, isPrefixOf_self]
+  | c :: a => by
+    simp only [List.cons_append, isInfix, isInfix_append_left p a, Bool.or_true]
+
 end EgVerif.Mux
